@@ -1,11 +1,13 @@
 package cond
 
 import (
+	"context"
 	"reflect"
 	"sort"
 	"strings"
 
 	"gorm.io/gorm"
+	"gorm.io/gorm/clause"
 )
 
 // Form is the gorm form a unit is handed over in.
@@ -73,6 +75,12 @@ type Unit struct {
 type Call struct {
 	Verb Verb
 	U    *Unit
+	// Pre is a neutral call made on the handle before this one ("" = none):
+	// "Session{}" or "WithContext" (both clone the statement).
+	Pre string
+	// ViaClauses hands a clause.Expression unit over with db.Clauses(expr)
+	// instead of db.Where(expr) (verb Where only).
+	ViaClauses bool
 }
 
 // Env is what rendering needs from the property: the handle grouped builders
@@ -217,7 +225,7 @@ func ChainPred(calls []Call, tail ...*Node) *Node {
 func (u *Unit) QueryArgs(env Env) (interface{}, []interface{}) {
 	switch u.Form {
 	case FStruct:
-		return env.MakeStruct(u.Fields, u.Ptr), nil
+		return env.MakeStruct(u.Fields, u.Ptr), u.Args // Args: selected column names
 	case FGroup:
 		return ApplyCalls(env.Base, env, u.Group), nil
 	}
@@ -233,7 +241,19 @@ func (u *Unit) Inline(env Env) []interface{} {
 // ApplyCalls applies the calls to db.
 func ApplyCalls(db *gorm.DB, env Env, calls []Call) *gorm.DB {
 	for _, c := range calls {
+		switch c.Pre {
+		case "Session{}":
+			db = db.Session(&gorm.Session{})
+		case "WithContext":
+			db = db.WithContext(context.Background())
+		}
 		q, a := c.U.QueryArgs(env)
+		if c.ViaClauses {
+			if e, ok := q.(clause.Expression); ok && c.Verb == VWhere {
+				db = db.Clauses(e)
+				continue
+			}
+		}
 		switch c.Verb {
 		case VWhere:
 			db = db.Where(q, a...)
@@ -257,7 +277,14 @@ func (u *Unit) String() string {
 func CallsString(calls []Call) string {
 	var b strings.Builder
 	for _, c := range calls {
-		b.WriteString("." + c.Verb.String() + "(" + c.U.String() + ")")
+		if c.Pre != "" {
+			b.WriteString("." + c.Pre)
+		}
+		name := c.Verb.String()
+		if c.ViaClauses {
+			name = "Clauses"
+		}
+		b.WriteString("." + name + "(" + c.U.String() + ")")
 	}
 	return b.String()
 }
@@ -306,6 +333,12 @@ func Classes(calls []Call, inline *Unit) []string {
 	}
 	for _, c := range calls {
 		c.U.Walk(c.Verb, 0, visit)
+		if c.Pre != "" {
+			seen["chain:"+c.Pre+"-between-calls"] = true
+		}
+		if c.ViaClauses {
+			seen["verb:Clauses(expr)"] = true
+		}
 	}
 	if inline != nil {
 		seen["inline:"+inline.Form.String()] = true
